@@ -148,3 +148,20 @@ def check_C09(res, replay):
                     "library molecules; crowded clusters (6-20 atoms in a 3 A box, incl. noble gases); lattice geometries with exact distance ties and "
                     "coincident atoms; chains stretched to 1.29/1.2999/1.3001/1.31 x sum of radii over all 118 elements; distorted, rigidly moved and "
                     "united random molecules. Non-trivial = at least one bond", extra_audit=TOPO_AUDIT)
+
+
+# ---------------------------------------------------------------------------------------------------- C05
+
+def check_C05(res, replay):
+    res.trusted = TB_COMMON + ["hand model OptRs.Model.optimise of SteepestDecentOptimiser::optimise (reactive: answers in, requests out)",
+                               "recording Forcefield wrapper in the harness", "axioms audited: subset of {propext, Classical.choice, Quot.sound}"]
+    res.assumptions = ["theorems are over an arbitrary scalar type with arbitrary operations and ALL answer lists; the reading 'sqrt(mean |g_i|) < 0.1 implies "
+                       "mean |g_i| < 0.1, and all |g_i| < 0.01 implies converged' is real arithmetic for n > 0 atoms (n = 0: 0/0 = NaN never converges; no loader yields an empty molecule)",
+                       "positivity of the step length follows from alpha_invariant with P = (0 < .) given the order law 0 < a -> 0 < a/2 (true in R and, for <= 500 halvings of 1e-4, in f64)"]
+    return standard(res, ["tables"], ["OptRs.Props.C05"], [("sd", [], "sd")], "proof",
+                    "lake build OptRs.Props.C05 + #print axioms audit",
+                    "recorded request histories of Molecule::optimise / from_max_iterations(k) on UFF and RB force fields of library and random molecules, "
+                    "and on synthetic fields: quadratic wells of stiffness 1..1e7 (several need halvings/restarts), monotonically rising energy, flat, "
+                    "alternating, NaN energy, zero gradient, stateful answers, budgets 0 and 1; the model fed the answers must emit the identical request "
+                    "fingerprints and final coordinates; the property's trace predicates are evaluated on each recording",
+                    extra_audit=["OptRs.Model.SD"])
